@@ -1,11 +1,15 @@
 #!/bin/bash
-# applies every seeded change in turn to /repo and runs the quick check of its property; prints one line per change
+# applies every seeded change in turn to a scratch copy of /repo/src (never to /repo itself) and runs the quick check of its
+# property against the copy; writes seeded/RESULTS.tsv
 cd /verif
+out=seeded/RESULTS.tsv
+printf "change\tproperty\tcheck_exit\tviolation_lines\tof_which_no_failing_input\n" > $out
 for d in seeded/*/; do
   n=$(basename $d); p=${n%%-*}
-  res=$(selftest/try_seeded.sh /verif/$d $p 2>&1)
-  demo=$(echo "$res" | grep -o "demo_rc_with_patch=[0-9]*")
-  v=$(echo "$res" | grep -c "^VIOLATION")
-  nf=$(echo "$res" | grep "^VIOLATION" | grep -c "no-failing-input-found")
-  echo "$n $demo violations=$v of-which-no-failing-input=$nf $(echo "$res" | grep -i "does not apply\|repo dirty" | head -1)"
+  res=$(selftest/mut.py --patch $d/patch.diff $p 2>&1 | tail -1)
+  rc=$(echo "$res" | grep -o "rc=[0-9]*" | cut -d= -f2)
+  v=$(echo "$res" | grep -o "VIOLATION" | wc -l)
+  nf=$(echo "$res" | grep -o "no-failing-input-found" | wc -l)
+  printf "%s\t%s\t%s\t%s\t%s\n" "$n" "$p" "$rc" "$v" "$nf" >> $out
+  echo "$n rc=$rc violations(shown)=$v nofail=$nf"
 done
